@@ -3,7 +3,6 @@
 package main
 
 import (
-	"encoding/json"
 	"fmt"
 	"regexp"
 	"strings"
@@ -701,7 +700,7 @@ func c05Run(r *vkit.Run) {
 
 func c05Replay(r *vkit.Run, v vkit.Violation) *vkit.Violation {
 	var in c05Input
-	if err := json.Unmarshal(v.Input, &in); err != nil {
+	if err := vkit.DecodeInput(v, &in); err != nil {
 		r.HarnessError("bad input: %v", err)
 	}
 	return vkit.ReplayOne(r, func() {
